@@ -38,6 +38,12 @@ pub fn stark_verify<Layout: LayoutTrait>(
         witness.composition_witness.to_owned(),
     )?;
 
+    // The evaluation below reads CONSTRAINT_DEGREE composition values per query: the declared column
+    // count of the composition table is not tied to the layout by configuration validation.
+    if witness.composition_decommitment.values.len() != queries.len() * Layout::CONSTRAINT_DEGREE {
+        return Err(swiftness_commitment::table::decommit::Error::DecommitmentLength.into());
+    }
+
     // Compute query points.
     let points = queries_to_points(queries, stark_domains);
 
